@@ -307,7 +307,18 @@ pub fn build_vec_reqs(spec: &ReqSpec, how: ReqBuild) -> VecSignedHeaderRequireme
 
 pub fn validate(w: &WireReq, cfg: &Cfg, provider: &mut Provider) -> SutResult {
     match w.to_http() {
-        Ok(req) => validate_http(req, cfg, provider, 64),
+        Ok(mut req) => {
+            // ambient configuration B: the protocol version the request arrived with is not an input of the
+            // signature; two thirds of the requests are presented as HTTP/2 or HTTP/3 instead of HTTP/1.1
+            if crate::env::ambient_b() {
+                match crate::core::h64(&(&w.uri, &w.headers, w.body.len(), "version")) % 3 {
+                    0 => *req.version_mut() = http::Version::HTTP_2,
+                    1 => *req.version_mut() = http::Version::HTTP_3,
+                    _ => {}
+                }
+            }
+            validate_http(req, cfg, provider, 64)
+        }
         Err(e) => SutResult::Unbuildable(e),
     }
 }
